@@ -1045,6 +1045,10 @@ func (pw *pathWalker) run(s *pwState) []*pwState {
 							boundWrapper = strings.HasPrefix(f.Synthetic, "bound method wrapper")
 						}
 					}
+					// ... or a particular function (a predicate handed to a helper)
+					if f, ok := s.p.resolve(x.Call.Value).(*ssa.Function); ok {
+						callee = f
+					}
 				}
 				onStack := false
 				for fr := s.frame; fr != nil; fr = fr.parent {
